@@ -14,7 +14,8 @@ SB_WF_STATIC = [(l, c.replace("decision_domains", "decision_variables")) for l, 
 contract(SH + "shave_bound", types=SB_T, result="bool", props=["C10", "C16", "C17", "C19", "C09"],
     requires=SB_WF_STATIC + WF_DYN + ["stacks_top[0] + 1 < H", "bound == MIN or bound == MAX", "0 <= dom_idx and dom_idx < D",
                                    "shr_domains_stack[stacks_top[0], dom_idx, MIN] < shr_domains_stack[stacks_top[0], dom_idx, MAX]"],
-    ghost_results={"bound_consistency_algorithm": "probe_status"},
+    ghost_results={"bound_consistency_algorithm": "probe_status"}, ghost={"sigma": "int[D]"},
+    call_ghosts={"bound_consistency_algorithm": {"sigma": "sigma"}},
     modifies=["statistics", "shr_domains_stack", "not_entailed_propagators_stack", "dom_update_stack", "stacks_top", "triggered_propagators"],
     ensures=[
         ("C10.height", f"stacks_top[0] == {T0}"),
@@ -22,6 +23,7 @@ contract(SH + "shave_bound", types=SB_T, result="bool", props=["C10", "C16", "C1
         ("C10.frame", f"forall(l, 0, {T0} + 1, forall(d, 0, D, implies(l != {T0} or d != dom_idx, {SS}[l, d, MIN] == {SS0}[l, d, MIN] and {SS}[l, d, MAX] == {SS0}[l, d, MAX])))"),
         ("C10.bound", f"{SS}[{T0}, dom_idx, bound] == {SS0}[{T0}, dom_idx, bound] + ite(result, ite(bound == MAX, -1, 1), 0) and {SS}[{T0}, dom_idx, 1 - bound] == {SS0}[{T0}, dom_idx, 1 - bound]"),
         ("C10.nonempty", f"{SS}[{T0}, dom_idx, MIN] <= {SS}[{T0}, dom_idx, MAX]"),
+        ("C10.preserve", f"implies(sol() and in_box({SS0}, {T0}), in_box({SS}, {T0}))"),
         ("C10.flags", f"forall(l, 0, {T0} + 1, forall(p, 0, P, {NEs}[l, p] == {NE0}[l, p]))"),
         ("C10.records", f"forall(l, 0, {T0}, {U_}[l, 0] == {U0}[l, 0] and {U_}[l, 1] == {U0}[l, 1])"),
         ("C10.wake", f"implies(result, forall(p, 0, P, implies({NEs}[{T0}, p] and has(triggers[dom_idx, p], ite(bound == MAX, EVENT_MASK_MAX, EVENT_MASK_MIN) | ite({SS}[{T0}, dom_idx, MIN] == {SS}[{T0}, dom_idx, MAX], EVENT_MASK_GROUND, 0)), triggered_propagators[p])))"),
@@ -44,17 +46,19 @@ SH_INV = [
     ("C17.passes", "statistics[STATS_IDX_ALG_BC_WITH_SHAVING_NB] == old(statistics)[STATS_IDX_ALG_BC_WITH_SHAVING_NB] + 1"),
     ("C10.shaved_idx", "implies(has_shaved, start_idx < D)"),
     ("C16.loop_vars", "0 <= start_idx and (bound == MIN or bound == MAX) and shr_domains_nb == D"),
+    ("C10.preserve", f"implies(sol() and in_box({SS0}, {T0}), in_box({SS}, {T0}))"),
     ("C10.unbound", f"implies(not has_shaved, exists(d, 0, D, {SS}[{T0}, d, MIN] < {SS}[{T0}, d, MAX]))"),
 ]
-contract(SH + "shaving_consistency_algorithm", types=ENGINE_T, props=["C10", "C16", "C17", "C19", "C01", "C07", "C08"],
-    requires=WF_STATIC + WF_DYN + ["D >= 1"],
+contract(SH + "shaving_consistency_algorithm", types=ENGINE_T, props=["C10", "C16", "C17", "C19", "C01", "C02", "C03", "C07", "C08"],
+    requires=WF_STATIC + WF_DYN + ["D >= 1"], ghost={"sigma": "int[D]"},
+    call_ghosts={"bound_consistency_algorithm": {"sigma": "sigma"}, "shave_bound": {"sigma": "sigma"}},
     modifies=["statistics", "shr_domains_stack", "not_entailed_propagators_stack", "dom_update_stack", "stacks_top", "triggered_propagators"],
     loops={1: dict(fingerprint="while start_idx < shr_domains_nb", invariant=SH_INV)},
-    ensures=CA_FRAME_IFACE + [CA_SHRINK, CA_STATUS, CA_BOUND, CA_UNBOUND,
+    ensures=CA_FRAME_IFACE + [CA_SHRINK, CA_STATUS, CA_BOUND, CA_UNBOUND, CA_PRESERVE,
         ("C17.solver_stats", SOLVER_STATS_SAME),
         ("C17.backtracks_mono", f"statistics[{BTN}] >= old(statistics)[{BTN}]"),
         ("C17.attempts", "statistics[STATS_IDX_ALG_SHAVING_NB] - old(statistics)[STATS_IDX_ALG_SHAVING_NB] == (statistics[STATS_IDX_ALG_SHAVING_CHANGE_NB] - old(statistics)[STATS_IDX_ALG_SHAVING_CHANGE_NB]) + (statistics[STATS_IDX_ALG_SHAVING_NO_CHANGE_NB] - old(statistics)[STATS_IDX_ALG_SHAVING_NO_CHANGE_NB])"),
         ("C17.passes", "statistics[STATS_IDX_ALG_BC_WITH_SHAVING_NB] == old(statistics)[STATS_IDX_ALG_BC_WITH_SHAVING_NB] + 1"),
         ("C09.records", f"forall(l, 0, {T0}, {U_}[l, 0] == {U0}[l, 0] and {U_}[l, 1] == {U0}[l, 1])"),
     ],
-    tags={"C10": ["C10"], "C08": ["C08", "C10"], "C07": ["C07"], "C01": ["C01"], "C17": ["C17"], "C09": ["C09"], "wf": ["C16", "C19"]}, arities=[])
+    tags={"C10": ["C10"], "C08": ["C08", "C10"], "C07": ["C07"], "C01": ["C01"], "C02": ["C02", "C10", "C03"], "C17": ["C17"], "C09": ["C09"], "wf": ["C16", "C19"]}, arities=[])
